@@ -31,6 +31,7 @@ type c05Spec struct {
 	Replicas string `json:"replica_state"` // ok one_dead all_dead one_stopped
 	List     string `json:"active_list"`   // full master_plus_one
 	Handover bool   `json:"manager_handover"`
+	Rejected bool   `json:"manual_request_rejected_after_the_last_failover"` // last_rejected_switch holds a manual request initiated after the last (automatic) switch
 	Expect   string `json:"closed_gate_by_construction"`
 }
 
@@ -52,6 +53,7 @@ func c05Gen(seed int64, idx int) c05Spec {
 		sp.Expect = "G2-maintenance:" + sp.Maint
 	case 4:
 		sp.LastSw, sp.Expect = "auto_young", "G7-cooldown"
+		sp.Rejected = r.Intn(2) == 0
 	case 5:
 		sp.Replicas, sp.Expect = "all_dead", "G6-quorum"
 	case 6:
@@ -371,6 +373,12 @@ func c05Run(u *Unit) {
 			s.ZK.Put("setup", NS+"/last_switch", mk("auto", 2*time.Hour))
 		case "manual_young":
 			s.ZK.Put("setup", NS+"/last_switch", mk("manual", 10*time.Minute))
+		}
+		if sp.Rejected {
+			t := now.Add(-2 * time.Minute)
+			s.ZK.Put("setup", NS+"/last_rejected_switch", fmt.Sprintf(`{"from":"","to":"x","cause":"manual","initiated_by":"op","initiated_at":%q,"master_transition":"switchover","started_by":"","started_at":"0001-01-01T00:00:00Z","result":{"ok":false,"error":"rejected: no quorum","finished_at":%q}}`,
+				t.Format(time.RFC3339Nano), t.Add(time.Second).Format(time.RFC3339Nano)))
+			sc.Cover("rejected-request-after-last-failover")
 		}
 		if sp.List == "master_plus_one" && sp.N > 2 {
 			b, _ := json.Marshal([]string{hosts[1], master})
